@@ -706,6 +706,10 @@ class Analyzer:
                     if l in self._mut_borrowed:
                         self._len_safe.add(l)
         thresholds = self._thresholds(f)
+        headers = getattr(f, "_loop_headers", None)
+        if headers is None:
+            headers = {h for h, body in f.natural_loops()}
+            f._loop_headers = headers
         instate = [None] * nb
         instate[0] = st0
         visits = [0] * nb
@@ -733,7 +737,9 @@ class Analyzer:
                     continue
                 else:
                     j = old.join(s2)
-                    if visits[succ] >= WIDEN_DELAY:
+                    # widen at loop headers only (a refinement made on the way into the loop body must not be widened away);
+                    # any other block that keeps changing is widened much later, which still bounds the iteration
+                    if (visits[succ] >= WIDEN_DELAY and succ in headers) or visits[succ] >= WIDEN_DELAY * 8:
                         j = self._widen(old, j, thresholds, f)
                     instate[succ] = j
                 if succ not in inq:
